@@ -685,6 +685,13 @@ def _value(ex, e, res, depth):
         if nm == "compute_signed_offset":
             res["kind"] = "label"
             return
+        if nm == "from" and e["args"] and ((e.get("callee") or {}).get("path") or "").startswith("core::convert::From") and \
+                (e.get("ty") or "") in ("u16", "u8", "u32") and tyname(H.peel(e["args"][0]).get("ty")) not in (None, "u8", "u16", "u32", "usize", "i8", "i16", "i32", "bool"):
+            # `u16::from(x.access)` == `x.access.into()`: conversion of a flags struct
+            res["kind"] = "flags:%s" % tyname(H.peel(e["args"][0]).get("ty"))
+            f, _ = _place_field(e["args"][0])
+            res["f"] = f
+            return
         if nm in ("try_from", "from") and e["args"]:
             return _value(ex, e["args"][0], res, depth + 1)
         return
